@@ -26,7 +26,8 @@ LEVEL = 'model_checking'
 TECHNIQUE = 'exhaustive exploration of mutation histories after each copy route on real objects; other-side/sibling/class invariance, differential post-histories, object-graph sharing walk'
 RULE = ('5 object kinds x 5 pre-histories (+ every single operation) x 5 copy routes (copy(), copy.copy, copy.deepcopy, a second copy(), copy() followed by handing the copy the original\'s own arrays) x 2 sides x all post-histories of <= 2 (quick) / 3 (thorough) ops from a ~25-op mutation '
         'alphabet; states = distinct (kind, pre, route) configurations, transitions = operations applied, traces = scenarios checked; '
-        'non-trivial = scenario in which the mutated side changed')
+        'non-trivial = scenario in which the mutated side changed'
+        ' Linker submodel identifiers that are mutable objects (3 copy routes).')
 ASSUMPTIONS = [
     'the caller-supplied span object of a *new* instance (not a copy) is the caller\'s own and is not counted as shared state',
     'immutable objects (str, numbers, tuples, ranges, pandas indexes) may be shared',
